@@ -28,10 +28,11 @@ pub struct Args {
     pub replay: Option<String>,
     pub workdir: String,
     pub consts: String,
+    pub punct: String,
 }
 
 fn parse_args() -> Args {
-    let mut a = Args { mode: "run".into(), prop: "C01".into(), tier: "quick".into(), seed: 1, driver: String::new(), unicode: String::new(), out: String::new(), replay: None, workdir: ".".into(), consts: String::new() };
+    let mut a = Args { mode: "run".into(), prop: "C01".into(), tier: "quick".into(), seed: 1, driver: String::new(), unicode: String::new(), out: String::new(), replay: None, workdir: ".".into(), consts: String::new(), punct: String::new() };
     let v: Vec<String> = std::env::args().collect();
     let mut i = 1;
     while i < v.len() {
@@ -39,7 +40,7 @@ fn parse_args() -> Args {
         match v[i].as_str() {
             "--mode" => a.mode = val, "--prop" => a.prop = val, "--tier" => a.tier = val,
             "--seed" => a.seed = val.parse().unwrap_or(1), "--driver" => a.driver = val, "--unicode" => a.unicode = val,
-            "--out" => a.out = val, "--replay" => a.replay = Some(val), "--workdir" => a.workdir = val, "--consts" => a.consts = val,
+            "--out" => a.out = val, "--replay" => a.replay = Some(val), "--workdir" => a.workdir = val, "--consts" => a.consts = val, "--punct" => a.punct = val,
             _ => { i += 1; continue; }
         }
         i += 2;
